@@ -256,6 +256,16 @@ static void c13_full_cycle(const cfg_t *c, int desc)
             char *o = malloc(fl ? fl : 1);
             liberasurecode_reconstruct_fragment(desc, lst, cnt, fl, 0, o);
             if (n > 1) liberasurecode_reconstruct_fragment(desc, lst, cnt, fl, n - 1, o);
+            /* the fragment with the highest index absent / misaligned as well (decode with two losses, reconstruct of the last one) */
+            if (m >= 2 && cnt >= 2) {
+                char *out2 = NULL; uint64_t ol2 = 0;
+                if (liberasurecode_decode(desc, lst, cnt - 1, fl, 0, &out2, &ol2) == 0) liberasurecode_decode_cleanup(desc, out2);
+                liberasurecode_reconstruct_fragment(desc, lst, cnt - 1, fl, n - 1, o);
+                char *mis = malloc(fl + 16); memcpy(mis + 3, lst[cnt - 1], fl); char *keep = lst[cnt - 1]; lst[cnt - 1] = mis + 3;
+                if (liberasurecode_decode(desc, lst, cnt, fl, 0, &out2, &ol2) == 0) liberasurecode_decode_cleanup(desc, out2);
+                lst[cnt - 1] = keep; free(mis);
+                mon_count("cycle_calls", 3);
+            }
             free(o);
             int R[2] = { 0, -1 }, X[1] = { -1 }, N[40];
             liberasurecode_fragments_needed(desc, R, X, N);
@@ -526,7 +536,7 @@ static void run_one_history(const int *acts, int len, int preset, const char *ki
     /* counter presets (exported variable): 1 = start from 0, jump to INT_MAX-1 after the second create, so the
      * wrap lands on descriptors that are still live; 2 = start just below INT_MAX; 3 = start negative;
      * 4 = like 1 but the jump happens after the third create */
-    if (preset == 1 || preset == 4) next_backend_desc = 0;
+    if (preset == 1 || preset == 4 || preset == 5) next_backend_desc = 0;
     else if (preset == 2) next_backend_desc = INT_MAX - 1;
     else if (preset == 3) next_backend_desc = -5;
     int ncreate = 0;
@@ -535,7 +545,10 @@ static void run_one_history(const int *acts, int len, int preset, const char *ki
         hist_step(&h, acts[i], kind);
         if (acts[i] <= A_CREATE_RS0) {
             ncreate++;
-            if ((preset == 1 && ncreate == 2) || (preset == 4 && ncreate == 3)) next_backend_desc = INT_MAX - 1;
+            if ((preset == 1 && ncreate == 2) || (preset == 4 && ncreate == 3) || (preset == 5 && ncreate == 2)) next_backend_desc = INT_MAX - 1;
+            /* 5 = second lap: the create after the jump received INT_MAX; the counter is put just below it again, so that later
+             * creates walk up to a descriptor that may still be live at the very top of the range and have to step over it */
+            if (preset == 5 && ncreate >= 3 && ncreate % 2 == 1) next_backend_desc = INT_MAX - 2;
         }
     }
     hist_finish(&h, kind);
@@ -578,8 +591,13 @@ static void run_registry(void)
         rng_t r; rng_seed(&r, MO.seed, 0x14000 + (uint64_t)i);
         int len = 10 + (int)rng_below(&r, 191);
         for (int j = 0; j < len; j++) acts[j] = (int)rng_below(&r, A_MAX);
-        run_one_history(acts, len, i % 5, "random");
+        run_one_history(acts, len, i % 6, "random");
     }
+    /* directed: an instance holding INT_MAX stays alive while the counter comes up to it a second time */
+    { static const int second_lap[][12] = {
+        { A_CREATE_RS, A_CREATE_RS2, A_CREATE_XOR, A_DESTROY0, A_CREATE_NULL, A_DESTROY0 + 1, A_CREATE_RS, A_USE0 + 2, A_USE0 + 1, A_USE0, A_DESTROY0 + 2, A_USE0 + 1 },
+        { A_CREATE_NULL, A_CREATE_XOR, A_CREATE_RS, A_CREATE_RS2, A_DESTROY0 + 3, A_CREATE_RS0, A_DESTROY0, A_CREATE_XOR, A_USE0 + 2, A_USE0 + 3, A_USE0, A_DESTROY0 + 2 } };
+      for (int q = 0; q < 2; q++) { memcpy(acts, second_lap[q], sizeof second_lap[q]); run_one_history(acts, 12, 5, "second-lap"); } }
     /* all destruction orders of 4 RS instances */
     int perm[4] = { 0, 1, 2, 3 };
     for (int pi = 0; pi < 24; pi++) {
@@ -1426,7 +1444,21 @@ static void run_faults(void)
                     mon_count("evaluations", 1);
                     if (rc == 0 && memcmp(o, L.s.frag[dest], L.s.flen)) mon_viol("C17", "backend-failure-not-reported", "reconstruct(dest=%d) of an erasure set the flat-XOR code %s returned 0 with a wrong fragment", dest, solvable ? "can solve" : "cannot solve");
                     free(o);
-                    q_zero(&q, "C17", "decode/reconstruct the backend itself refuses");
+                    /* the planner's own refusals: the same index set as a fragments_needed query, split between the two lists in
+                     * every way (it answers 0 with a sufficient list, or an error; either way nothing stays allocated) */
+                    for (uint32_t sp = 1; sp < (1u << sz); sp++) {
+                        int R[8], X[8], nr = 0, nx = 0, N[40];
+                        for (int i = 0; i < sz; i++) if (sp >> i & 1) R[nr++] = cb[i]; else X[nx++] = cb[i];
+                        R[nr] = -1; X[nx] = -1;
+                        int nrc = liberasurecode_fragments_needed(L.desc, R, X, N);
+                        mon_count("evaluations", 1); mon_count(nrc == 0 ? "band_needed_answered" : "band_needed_refused", 1);
+                        if (nrc > 0) mon_viol("C17", "positive-rc", "fragments_needed rc=%d", nrc);
+                        if (nrc == 0) { uint32_t got = 0; int bad = 0; for (int i = 0; i < 40 && N[i] != -1; i++) { if (N[i] < 0 || N[i] >= n || (er >> N[i] & 1)) bad = 1; else got |= 1u << N[i]; }
+                                        int s2[32]; int n2 = list_of(got, n, s2);
+                                        for (int i = 0; i < nr && !bad; i++) if (!gf2_in_span(L.cd.x, s2, n2, L.cd.x[R[i]])) bad = 1;
+                                        if (bad) mon_viol("C17", "backend-failure-not-reported", "fragments_needed for an index set of %d fragments (hd=%d) answered 0 with a list that is not usable", sz, c.hd); }
+                    }
+                    q_zero(&q, "C17", "decode/reconstruct/fragments_needed the backend itself refuses");
                     /* and the instance still works */
                     if ((er & 7u) == 1u) live_roundtrip(&L, "C17", "after a backend-reported failure", 1);
                     mon_distinct("nontrivial", mon_hash_u64(er, mon_hash_str(ck, 172)));
